@@ -1,5 +1,5 @@
 SPECIFICATION Spec
-CONSTANT MaxN = 3
+CONSTANT MaxN = 2
 CONSTANT KeySpace <- KS
 CONSTANT MaxKeys = 2
 CONSTANT MaxW = 2
@@ -11,4 +11,5 @@ INVARIANT C05_Fewest
 INVARIANT C05_NeverRemoves
 INVARIANT C05_Support
 PROPERTY C05_OnlyAdditions
+CONSTRAINT RunBound
 CHECK_DEADLOCK FALSE
